@@ -33,6 +33,10 @@ class DuplicateStorage:
         """
         self._cache = cache
 
+    def close(self) -> None:
+        """Release the underlying cache (closes the SQLite connection / temp file)."""
+        self._cache.close()
+
     def add_blocks(self, file_path: Path, blocks: list[CodeBlock]) -> None:
         """Add code blocks to SQLite storage.
 
